@@ -208,6 +208,43 @@ func init() {
 		Note: "the documented defaults (inner 25 = DefaultTsiFirstSmoothingPeriod, outer 13 = DefaultTsiSecondSmoothingPeriod) fix the order: first smoothing innermost",
 	})
 
+	// the smoothings are exported fields of interface type trend.Ma: any moving average may be plugged in, and one
+	// smoothing instance serves two streams (price change and absolute price change) inside one Compute
+	tsiMa := func(k1, p1, k2, p2 int, x ref.S) ref.S {
+		ch := ref.Diff(x, 1)
+		sm := func(s ref.S) ref.S { return volMaRef(k2, volMaRef(k1, s, p1), p2) }
+		return ref.Scl(ref.Div(sm(ch), sm(ref.Abs(ch))), 100)
+	}
+	RegInd(&Ind{
+		Name: "trend.Tsi (any Ma)", In: []string{"X"}, Out: []string{"tsi"},
+		// cfg = [first smoothing kind, first smoothing period, second smoothing kind, second smoothing period]
+		Cfgs: func(t bool) [][]float64 {
+			var r [][]float64
+			for _, k1 := range []int{maWma, maSma, maHma} {
+				for _, k2 := range []int{maWma, maEma} {
+					for _, p := range [][2]int{{2, 2}, {3, 2}, {2, 3}} {
+						r = append(r, []float64{float64(k1), float64(p[0]), float64(k2), float64(p[1])})
+					}
+				}
+			}
+			return r
+		},
+		New: func(c []float64) *Inst {
+			o := &trend.Tsi[float64]{FirstSmoothing: volMa(I(c, 0), I(c, 1)), SecondSmoothing: volMa(I(c, 2), I(c, 3))}
+			return &Inst{Obj: o, Idle: o.IdlePeriod(), Compute: F11(o.Compute)}
+		},
+		Ref: func(c []float64, in []ref.S) []ref.S {
+			return []ref.S{tsiMa(I(c, 0), I(c, 1), I(c, 2), I(c, 3), in[0])}
+		},
+		AsIs: map[string]func(c []float64, in []ref.S) []ref.S{
+			"tsi-smoothing-order-swapped": func(c []float64, in []ref.S) []ref.S {
+				return []ref.S{tsiMa(I(c, 2), I(c, 3), I(c, 0), I(c, 1), in[0])}
+			},
+		},
+		PriceDeg: []int{0}, VolDeg: []int{0},
+		Note: "Tsi assembled as a literal with Wma / Sma / Hma / Ema smoothings; same formula and same recorded order defect as trend.Tsi",
+	})
+
 	RegInd(&Ind{
 		Name: "trend.TypicalPrice", In: []string{"H", "L", "C"}, Out: []string{"tp"},
 		Cfgs: func(t bool) [][]float64 { return [][]float64{{}} },
